@@ -43,6 +43,7 @@ class TS(Hooks):
         self.ready_calls = []       # (eid, ready_state value before the call) for _make_decode_ready
         self.info_clears = []       # (eid, decoder cleared?, ready_state) for vorbis_info_clear on the handle's set-up
         self.calls_unknown = []
+        self.link_stores = []       # (eid, decoder live?, ready_state) for stores to the handle's current_link
 
     # -- state ------------------------------------------------------------------------------------
     def flags(self, env):
@@ -106,6 +107,24 @@ class TS(Hooks):
         env['$ts'] = frozenset(fl)
 
     # -- events -------------------------------------------------------------------------------------
+    def on_node(self, A, env, e, v):
+        if not A.final:
+            return
+        nd = A.ex[e]
+        tgt = None
+        if nd['k'] == 'assign':
+            tgt = nd['c'][0]
+        elif nd['k'] == 'un' and nd['op'] in ('pre++', 'post++', 'pre--', 'post--'):
+            tgt = nd['c'][0]
+        if tgt is None:
+            return
+        l = A.ex[self.F.strip_casts(tgt)]
+        if l['k'] == 'member' and l.get('record') == HANDLE and l['field'] == 'current_link':
+            b = A.ex[self.F.strip_casts(l['c'][0])]
+            if b['k'] == 'ref' and b['decl'].get('id') in self.hparams:
+                i = self.hparams[b['decl']['id']]
+                self.link_stores.append((e, f'vd@{i}' in self.flags(env), self._rs(A, env, i)))
+
     def on_call(self, A, env, e, avals):
         nd = A.ex[e]
         d = nd['callee'].get('d')
